@@ -157,6 +157,17 @@ TargetEnv == Append(BaseEnv, StructDef(Resolved(result)))
 AbsentIgnored ==
     (outcome # "todo" /\ \A q \in 1..Len(script) : script[q].op = "absent") => result = Flatten(ims, inMessage)
 
+(* ---- isar enumerator values ------------------------------------------------- *)
+\* "make_enum converts negative values to unsigned 32-bit": -m denotes 2^32 - m.
+\* TLC integers are 32-bit, so the value is given as two 16-bit limbs <<hi, lo>>:
+\* 2^32 - m = (2^32 - 1) - (m - 1) = (65535 - q) * 65536 + (65535 - r), m - 1 = q * 65536 + r.
+EnumValueLimbs(neg, m) ==
+    IF neg THEN <<65535 - ((m - 1) \div 65536), 65535 - ((m - 1) % 65536)>>
+    ELSE <<m \div 65536, m % 65536>>
+EnumValueForms == {[neg |-> neg, base |-> base, m |-> m, limbs |-> EnumValueLimbs(neg, m)] :
+                       neg \in BOOLEAN, base \in {"d", "x"}, m \in {1, 16, 255, 65536, 70000, 2147483647}}
+ASSUME PrintT("FEENUM " \o ToJson(EnumValueForms))
+
 FDump == outcome # "todo" =>
     PrintT("FE " \o ToJson([ims |-> ims, inMessage |-> inMessage, script |-> script, outcome |-> outcome,
                               members |-> result]))
